@@ -278,6 +278,10 @@ func corsJob(raw json.RawMessage) (any, error) {
 	}
 	out := &simpleOut{}
 	outc := map[string]struct{}{}
+	// the router gets its own copy of the configuration: the slices handed to WithCORS belong to mux's caller,
+	// and an implementation that edits them must not be able to edit the oracle's idea of what was configured
+	var handed corsCfg
+	json.Unmarshal(mustJSON(it.Cfg), &handed)
 	c := it.Cfg
 	rep := func(clause, class string, q corsReq, obs, exp string) {
 		label := q.req().String()
@@ -289,7 +293,7 @@ func corsJob(raw json.RawMessage) (any, error) {
 	}
 	anyOrigin := contains(c.Origins, "*")
 	invalid := (anyOrigin && c.Cred) || c.MaxAge < -1
-	r, pv, bad := corsRouter(c)
+	r, pv, bad := corsRouter(handed)
 	out.Evals++
 	if invalid {
 		if !bad {
